@@ -12,7 +12,7 @@
    run_states / init_poked: the simulator kernel of Model/SimKernel.v and Model/Trace.v. *)
 From V Require Import Base.Bits Gen.WireOps Gen.Helpers Gen.Prims Gen.Seq Model.VSyntax Model.VSem Model.Inline Model.SimKernel Model.Trace
   Model.C01Prim Spec.C04 Proofs.C01.InlineSound Proofs.C01.ComposePrim Proofs.C01.ComposeKernel Proofs.C01.ComposeComb
-  Proofs.C01.ComposeSeq Proofs.C01.ComposeMain Proofs.C01.ComposeExamples.
+  Proofs.C01.ComposeSeq Proofs.C01.ComposeMain Proofs.C01.ComposeItems Proofs.C01.ComposeExamples.
 
 (* 1. every covered primitive instance, all widths / constants / in-range input values: its one assign targets the whole result
       net and stores exactly what the regenerated propagate() passes to Wire.put *)
@@ -100,6 +100,38 @@ Theorem C01_vsim_compose_noclock : forall f ps gs clk ins, match_flat ps gs clk 
        (run_states (comp_design f ps gs) (init_poked (comp_design f ps gs) (reg_st0 gs) (reg_pokes gs)) (map (kstep f) steps)), true).
 Proof. exact vsim_compose_noclock. Qed.
 
+(* 6. multi-output leaves (BitsLSBF / BitsMSBF): the kernel design lists the block as ONE leaf writing all its wires
+      (`comp_design_items`); the check `match_items` is `match_flat` on the single-output projections plus "the block does not read its
+      own outputs, one listed wire per bit".  Evaluating the merged leaf is evaluating its projections in order: *)
+Theorem C01_bits_leaf_split : forall (St : Type) (d : SimKernel.design St) msb a bits vs, item_ok (IBits msb a bits) = true ->
+  fold_left (propagate1 d) (map prim_leaf (item_prims (IBits msb a bits))) vs = propagate1 d vs (item_leaf (IBits msb a bits)).
+Proof. exact (@bits_split). Qed.
+(* ... so the end-to-end statements hold for the design with the merged leaves (what netlist.Dump / the live simulator have) *)
+Theorem C01_vsim_compose_items : forall f items gs clk ins, match_items items gs clk ins f = true ->
+  forall clkname steps outs,
+  net_index (f_nets f) clkname 0 = Some clk ->
+  (forall o, In o (resolve_names f outs) -> ~ In o (map (fun g => fst (rg_rq g)) gs)) ->
+  legal_steps f ins steps ->
+  vsim f clkname steps outs =
+  (map (fun s => map (rd (vals s)) (resolve_names f outs))
+       (run_states (comp_design_items f items gs) (init_poked (comp_design_items f items gs) (reg_st0 gs) (reg_pokes gs)) (map (kstep f) steps)), true).
+Proof. exact vsim_compose_items. Qed.
+Theorem C01_vsim_compose_items_noclock : forall f items gs clk ins, match_items items gs clk ins f = true ->
+  forall clkname steps outs, gs = [] ->
+  net_index (f_nets f) clkname 0 = None ->
+  legal_steps f ins steps ->
+  vsim f clkname steps outs =
+  (map (fun s => map (rd (vals s)) (resolve_names f outs))
+       (run_states (comp_design_items f items gs) (init_poked (comp_design_items f items gs) (reg_st0 gs) (reg_pokes gs)) (map (kstep f) steps)), true).
+Proof. exact vsim_compose_items_noclock. Qed.
+
+(* 7. Div / Mod: the leaf of PDiv / PMod fixes the simulator's random result for a ZERO divisor (to VSem's a/0 = 0, a%0 = a), so text and
+      leaf agree on every environment; for a non-zero divisor it is the regenerated propagate() whatever `rnd` is.  Rows of a run in
+      which a divisor net (`div_nets`) is zero are outside the property's claim (decided per stimulus by the check). *)
+Theorem C01_div_rnd_irrelevant : forall w rnd a b, b <> 0 ->
+  Div_propagate w rnd a b = Div_propagate w 0 a b /\ Mod_propagate w rnd a b = Mod_propagate w 0 a b.
+Proof. exact div_rnd_irrelevant. Qed.
+
 (* ---------------------------------------------------------------- non-vacuity: the hypotheses hold on concrete designs
    (definitions and computations in Proofs/C01/ComposeExamples.v) *)
 (* two assigns in the text in REVERSE dependency order:  r = t | c;  t = a & b;  the check passes, the loop needs a second pass *)
@@ -127,3 +159,7 @@ Print Assumptions C01_powerup_compose.
 Print Assumptions C01_stream_compose.
 Print Assumptions C01_vsim_compose.
 Print Assumptions C01_vsim_compose_noclock.
+Print Assumptions C01_bits_leaf_split.
+Print Assumptions C01_vsim_compose_items.
+Print Assumptions C01_vsim_compose_items_noclock.
+Print Assumptions C01_div_rnd_irrelevant.
